@@ -379,6 +379,8 @@ def _run_one(engine, prop, base_seed, tier, index):
     seed = derive_seed(prop, base_seed, index)
     rng = random.Random(seed)
     run = engine.generate(rng, tier, index)
+    # what is executed is exactly what a replay file can hold
+    run = json.loads(json.dumps(run, default=_json_default))
     run.update({"property": prop, "index": index, "seed": seed,
                 "base_seed": base_seed, "tier": tier})
     faulthandler.dump_traceback_later(
